@@ -75,6 +75,9 @@ class GlencoeReader(TextToModel):
                 elif feature_type == "GENOR":  # Group Cardinality
                     card_min = features_info[feature_id]["min"]
                     card_max = features_info[feature_id]["max"]
+                    for card in (card_min, card_max):
+                        if not isinstance(card, int) or isinstance(card, bool):
+                            raise FlamaException(f"The bounds of '{feature.name}' are not integers.")
                     relation = Relation(feature, children, card_min, card_max)
                 feature.add_relation(relation)
         # Create an attribute for the 'note' parameter
